@@ -46,6 +46,7 @@ json world8()
 	fs.push_back(fs_file("/inc/unterminated.conf", "a = 3\ns = \"never closed\n"));
 	fs.push_back(fs_file("/inc/incomment.conf", "a = 4 /* never closed\n"));
 	fs.push_back({{"path", "/inc/dir"}, {"kind", "dir"}});
+
 	// the callbacks of these run while an included file is open (re-entry probes)
 	fs.push_back(fs_file("/inc/reentry.conf", "b = on\nfn(\"x\")\nvi = 6\nsl += {inner}\n"));
 	fs.push_back(fs_file("/inc/reentry2.conf", "f = 0.5\ninclude(\"/inc/reentry.conf\")\nl += 3\n"));
@@ -178,7 +179,9 @@ json generate(uint64_t seed, uint64_t idx, int tier)
 	json schema = schema8();
 	plan["schemas"] = json::array({schema});
 	plan["world"] = world8();
-	plan["knobs"] = {{"tty", r.chance(1, 5)}, {"fill", r.chance(1, 2) ? 0xA5 : (r.chance(1, 2) ? 0 : 0xFF)}};
+	for (int i = 0; i < NPROBES; i++)
+		plan["world"]["fs"].push_back(fs_file("/probe/p" + std::to_string(i) + ".conf", PROBES[i]));
+	plan["knobs"] = {{"tty", r.chance(1, 5)}, {"fill", r.chance(1, 2) ? 0xA5 : (r.chance(1, 2) ? 0 : 0xFF)}, {"recycle", r.chance(1, 2)}};
 	json steps = json::array();
 	int nclients = r.chance(1, 3) ? 2 : 1;
 	int nctx = r.chance(1, 2) ? 2 : 1;
@@ -226,7 +229,9 @@ json generate(uint64_t seed, uint64_t idx, int tier)
 		if (p == 9)
 			pinit["flags"] = F_COMMENTS;
 		steps.push_back(pinit);
-		json ps = parse_step(cl, fresh_ctx, r.chance(1, 4) ? "fp" : "buf", PROBES[p]);
+		// by buffer, by caller-owned stream, or by name: then the library opens the FILE itself - possibly at the
+		// address of one it closed earlier
+		json ps = r.chance(1, 4) ? parse_file_step(cl, fresh_ctx, "/probe/p" + std::to_string(p) + ".conf") : parse_step(cl, fresh_ctx, r.chance(1, 3) ? "fp" : "buf", PROBES[p]);
 		steps.push_back(ps);
 		probe_steps.push_back(json::array({first, first + 1}));
 		if (r.chance(1, 2))
@@ -268,8 +273,8 @@ json generate(uint64_t seed, uint64_t idx, int tier)
 					      "include(\"/inc/reentry2.conf\")\na = 44\n"};
 		unsigned ti = (unsigned)r.below(4);
 		json ps = parse_step(cl, c, r.chance(1, 4) ? "fp" : "buf", texts[ti]);
-		static const char *acts[] = {"free_other", "nested_parse", "parse_other", "set_self"};
-		ps["cbact"] = acts[r.below(ti == 2 ? 3 : 4)]; // set_self touches 'a', which every text but the third assigns after the callback
+		static const char *acts[] = {"free_other", "nested_parse", "parse_other", "nested_parse_refused", "set_self"};
+		ps["cbact"] = acts[r.below(ti == 2 ? 4 : 5)]; // set_self touches 'a', which every text but the third assigns after the callback
 		ps["cbact_at"] = 1;
 		ps["cbact_c"] = 7;
 		ps["reentry"] = 1;
@@ -548,7 +553,7 @@ JudgeOut judge(const json &plan)
 	// ---- process-wide resources: no stream may stay open, the include stack must be empty
 	if (out.viol.empty())
 		for (auto &c : base.conservation)
-			if (c.compare(0, 11, "stream-leak") == 0 || c.compare(0, 13, "include-stack") == 0)
+			if (c.compare(0, 11, "stream-leak") == 0 || c.compare(0, 13, "include-stack") == 0 || c.compare(0, 22, "stream-use-after-close") == 0)
 				out.viol.push_back({"O-resource:" + c.substr(0, c.find_first_of(" =")), "after the history a process-wide resource is still held (" + c + "): later parses of any context depend on it", nullptr});
 
 	// ---- O-solo: each client's outcomes equal its solo run
